@@ -63,23 +63,47 @@ func Register[S any, PS interface {
 	}
 }
 
-// PCTPercent of the generated scenarios use PCT-style priority scheduling
-// (see Sched.PCTDepth) instead of uniform random picks; a function of the seed
-// only. Uniform picks advance every runnable goroutine at the same rate, so a
-// bug that needs one goroutine to run far ahead while others sit inside a
-// window one scheduling point wide is practically unreachable for them.
-var PCTPercent = 25
+// Scheduling modes. Uniform picks advance every runnable goroutine at the same
+// rate, so a bug that needs one goroutine to run far ahead while others sit
+// inside a window one scheduling point wide is practically unreachable for
+// them. A function of the seed only: PCTPercent of the generated scenarios use
+// PCT-style priority scheduling (Sched.PCTDepth), SDPercent use site delays
+// (Sched.SDMod) on top of uniform picks, and PCTSDPercent use both.
+var (
+	PCTPercent   = 10
+	PCTSDPercent = 5
+	SDPercent    = 15
+)
+
+var forceMode = os.Getenv("SIM_SCHED_MODE")
 
 func applyPCT(s *Sched, seed uint64) {
-	if PCTPercent <= 0 || s.PCTDepth != 0 || s.Decisions != "" {
+	if s.PCTDepth != 0 || s.SDMod != 0 || s.Decisions != "" {
 		return
 	}
 	h := Mix(seed, 0x9c7)
-	if int(h%100) >= PCTPercent {
-		return
+	r := int(h % 100)
+	pct := r < PCTPercent+PCTSDPercent
+	sd := r >= PCTPercent && r < PCTPercent+PCTSDPercent+SDPercent
+	switch forceMode { // experiments only (SIM_SCHED_MODE)
+	case "uniform":
+		pct, sd = false, false
+	case "pct":
+		pct, sd = true, false
+	case "sd":
+		pct, sd = false, true
+	case "pct+sd":
+		pct, sd = true, true
 	}
-	s.PCTDepth = 1 + uint32((h>>8)%3)
-	s.PCTSteps = []uint32{50, 300, 2000, 20000, 200000}[(h>>16)%5]
+	if pct {
+		s.PCTDepth = 1 + uint32((h>>8)%3)
+		s.PCTSteps = []uint32{50, 300, 2000, 20000, 200000}[(h>>16)%5]
+	}
+	if sd {
+		s.SDMod = []uint32{3, 8, 16, 64, 256}[(h>>24)%5]
+		s.SDRes = uint32(h>>32) % s.SDMod
+		s.SDLifo = (h>>56)&1 == 1
+	}
 }
 
 // Request is what cmd/simcheck sends (env SIM_REQ = path of a JSON file).
